@@ -66,6 +66,8 @@ func (e *Engine) verifyFunction(fn *ssa.Function, spec *FuncSpec) *Gen {
 				v := ctx.eval(ex)
 				if ctx.err == nil {
 					g.allocBound = &allocBound{input: ctx.to64(v)}
+					// the stream, like every slice, is assumed shorter than 2^40 bytes
+					g.assume(st, bvcmp("bvule", g.allocBound.input, bv64(1<<40)))
 				}
 			}
 		}
@@ -106,7 +108,12 @@ func (e *Engine) verifyFunction(fn *ssa.Function, spec *FuncSpec) *Gen {
 		if err != nil {
 			g.unbound = append(g.unbound, err.Error())
 		}
-		a.frameLocs, a.frameRanges = locs, ranges
+		a.frameLocs = locs
+		for _, r := range ranges {
+			if r.lo.Sort != "ghost" {
+				a.frameRanges = append(a.frameRanges, r)
+			}
+		}
 	}
 	// vacuity: precondition satisfiable
 	cov := g.oblige(st, a.name, "vacuity", "pre", tTrue, spec.Pos)
